@@ -38,7 +38,7 @@ META = {
         "colour spaces/inline image/nested forms; RC4, AES-128 and AES-256 (R6) encryption; incremental update with /Prev; embedded TrueType "
         "programs with cmap formats 4 and 12; content streams through LZW, RunLength, ASCII85, ASCIIHex, Flate+PNG/TIFF predictors and a filter chain). The generated object stream and "
         "cross-reference stream (dictionary entries and payload) and every stream's /Length are fault sites too; /Prev additionally "
-        "gets the value 'offset of its own section'. structural faults: every dictionary entry, array element, stream-dictionary "
+        "gets the values 'offset of its own section' and 'one byte before it' (on the end-of-line in front of the xref keyword). structural faults: every dictionary entry, array element, stream-dictionary "
         "entry, top-level object and trailer entry x {null,int,real,name,string,array,dict,boolean,ref->self,ref->missing,"
         "ref->ancestor(cycle), empty array, empty dict, 2**70, 2**63-1, 10**400, a 400-digit real, -1, 0} (the representative of the value's own type skipped) plus key removal; payload faults: every stream truncated at "
         "every length and emptied (thorough: one byte replaced at every position by 00,FF,'<','('); file truncated at every byte; content-stream faults on the graphics seed, whose "
@@ -277,7 +277,7 @@ def structural_faults(name: str) -> List[Tuple]:
     for key in ["Root", "Info", "Size", "ID", "Encrypt", "Prev"]:
         if key == "Prev" and "writer" not in kw:
             continue
-        for kind in KINDS + (["offsetself"] if key == "Prev" else []):
+        for kind in KINDS + (["offsetself", "offsetselfws"] if key == "Prev" else []):
             if kind == "remove" or key in ("Root", "Size", "Prev") or key in (kw.get("trailer_extra") or {}) or (key == "Info" and kw.get("info")):
                 out.append(("trailer", key, kind))
     # generated object stream / cross-reference stream dictionaries
@@ -315,7 +315,7 @@ def materialise(name: str, fault: Tuple) -> bytes:
     elif fault[0] == "trailer":
         _, key, kind = fault
         te = dict(kw.get("trailer_extra") or {})
-        te[key] = DROP if kind == "remove" else S.SELF_OFFSET if kind == "offsetself" else kind_value(kind, root, root)
+        te[key] = DROP if kind == "remove" else S.SELF_OFFSET if kind == "offsetself" else S.SELF_OFFSET_WS if kind == "offsetselfws" else kind_value(kind, root, root)
         if key == "Info" and kind == "remove":
             kw["info"] = None
             te.pop("Info")
